@@ -76,12 +76,65 @@ theorem oto_copy_same_items (s : OTO α) (w : s.WF) :
     (OTO.ofPairs (s.items false)).fwd = s.fwd ∧ (OTO.ofPairs (s.items false)).inv = s.fwd.map swap := by
   simp [OTO.items, OTO.ofPairs_of_wf w]
 
+/-- `update(arg)` / `|= arg` is `x[k] = v` for every pair of the materialised argument, in order -/
+theorem oto_update_sequential (s : OTO α) (k v : α) (ps : List (α × α)) :
+    s.update ((k, v) :: ps) = (s.setitem k v).update ps ∧ s.update [] = s := ⟨rfl, rfl⟩
+
+/-- pairs that do not collide with each other (distinct keys, distinct values) are ALL installed by
+    `update` / `|=` - the first one included (the defect fixed in 8b557fc dropped it) -/
+theorem oto_update_installs_all (s : OTO α) (w : s.WF) (ps : List (α × α))
+    (hk : (ps.map Prod.fst).Nodup) (hv : (ps.map Prod.snd).Nodup) :
+    ∀ p ∈ ps, p ∈ (s.update ps).fwd ∧ swap p ∈ (s.update ps).inv := by
+  intro p hp
+  have w' := w.update ps
+  have h1 := OTO.update_installs_all w ps hk hv p hp
+  exact ⟨(mem_iff_lookup _ w'.nf p.1 p.2).2 h1, (mem_iff_lookup _ w'.ni p.2 p.1).2 ((w'.inverse _ _).1 h1)⟩
+
+/-- `del x[k]`: KeyError and no change for a missing key, else exactly the pair with key `k` goes -/
+theorem oto_delitem_spec (s : OTO α) (k a : α) :
+    (lookup k s.fwd = none → s.delitem k = (s, .err .KeyError)) ∧
+    (∀ v, lookup k s.fwd = some v → (s.delitem k).2 = .none ∧
+      lookup a (s.delitem k).1.fwd = if a = k then none else lookup a s.fwd) :=
+  OTO.delitem_spec s k a
+
+/-- `x.pop(k[, d])`: returns the value and removes exactly that pair; default / KeyError when missing -/
+theorem oto_pop_spec (s : OTO α) (k : α) (d : Option α) (a : α) :
+    (lookup k s.fwd = none → s.pop k d = (s, match d with | some x => .val x | none => .err .KeyError)) ∧
+    (∀ v, lookup k s.fwd = some v → (s.pop k d).2 = .val v ∧
+      lookup a (s.pop k d).1.fwd = if a = k then none else lookup a s.fwd) :=
+  OTO.pop_spec s k d a
+
+/-- `x.popitem()`: KeyError when empty, else returns one of the pairs and removes exactly it -/
+theorem oto_popitem_spec (s : OTO α) (w : s.WF) (a : α) :
+    (s.fwd = [] → s.popitem = (s, .err .KeyError)) ∧
+    (s.fwd ≠ [] → ∃ k v, s.popitem.2 = .pair k v ∧ lookup k s.fwd = some v ∧
+      lookup a s.popitem.1.fwd = if a = k then none else lookup a s.fwd) :=
+  OTO.popitem_spec w a
+
+/-- `x.setdefault(k, d)`: an existing key is returned untouched, a missing one is `x[k] = d` -/
+theorem oto_setdefault_spec (s : OTO α) (w : s.WF) (k d : α) :
+    (∀ v, lookup k s.fwd = some v → s.setdefault k d = (s, .val v)) ∧
+    (lookup k s.fwd = none → s.setdefault k d = (s.setitem k d, .val d)) :=
+  OTO.setdefault_spec w k d
+
+/-- the constructor keeps only items of `dict(pairs)`, and all of them when no value repeats -/
+theorem oto_ctor_spec (ps : List (α × α)) :
+    (∀ k v, lookup k (OTO.ofPairs ps).fwd = some v → lookup k (putAll ([] : Dict α α) ps) = some v) ∧
+    (((putAll ([] : Dict α α) ps).map Prod.snd).Nodup → (OTO.ofPairs ps).fwd = putAll [] ps) :=
+  ⟨OTO.ofPairs_sub ps, OTO.ofPairs_injective ps⟩
+
 /-! non-vacuity: a history with overwrite + eviction through both sides, update from the own inverse, copy -/
 example : otoRun ([] : List (OTO Nat))
     [.new (.pairs [(1, 3), (2, 3), (4, 5)]), .op 0 true (.setitem 5 2), .copy 0 true,
      .updateFrom 1 false (.reg 0 false [(7, 7)]), .op 0 false .popitem]
     = some [⟨[], []⟩, ⟨[(5, 2), (2, 5), (7, 7)], [(2, 5), (5, 2), (7, 7)]⟩] := by decide
 example : (OTO.setitem (⟨[(1, 2), (3, 4)], [(2, 1), (4, 3)]⟩ : OTO Nat) 1 4) = ⟨[(1, 4)], [(4, 1)]⟩ := by decide
+/-- a state satisfying the `s.WF` hypotheses above (any constructed instance does) -/
+example : (OTO.ofPairs [(1, 2), (3, 4), (5, 2)] : OTO Nat).WF := OTO.WF.ofPairs _
+example : (OTO.ofPairs [(1, 2), (3, 4), (5, 2)] : OTO Nat) = ⟨[(5, 2), (3, 4)], [(2, 5), (4, 3)]⟩ := by decide
+/-- hypotheses of `oto_update_installs_all` on a colliding target: both old pairs are evicted, all three new ones land -/
+example : ((OTO.ofPairs [(1, 2), (3, 4)] : OTO Nat).update [(1, 4), (3, 9), (7, 2)]).fwd = [(1, 4), (3, 9), (7, 2)]
+    ∧ ([(1, 4), (3, 9), (7, 2)].map Prod.fst).Nodup ∧ ([(1, 4), (3, 9), (7, 2)].map Prod.snd).Nodup := by decide
 
 /-! ## ManyToMany
 
@@ -95,14 +148,6 @@ theorem m2m_invariant (cmds : List (M2MCmd α)) (regs : List (M2M α))
     (h : m2mRun [] cmds = some regs) : ∀ s ∈ regs, s.WF :=
   m2mRun_wf cmds (fun _ hs => by simp at hs) h
 
-theorem mem_iteritems {d : Dict α (List α)} (g : GoodDict d) (k v : α) :
-    (k, v) ∈ iteritems d ↔ v ∈ getSet k d := by
-  rw [← g.exists_iff]
-  simp only [iteritems, List.mem_flatMap, List.mem_map, Prod.mk.injEq]
-  constructor
-  · rintro ⟨p, hp, x, hx, h1, h2⟩; exact ⟨p, hp, h1, h2 ▸ hx⟩
-  · rintro ⟨p, hp, h1, h2⟩; exact ⟨p, hp, v, h2, h1, rfl⟩
-
 /-- … hence `iteritems()` of the two sides yield exactly the same pairs, transposed -/
 theorem m2m_same_pairs_transposed (cmds : List (M2MCmd α)) (regs : List (M2M α))
     (h : m2mRun [] cmds = some regs) (s : M2M α) (hs : s ∈ regs) (k v : α) :
@@ -110,6 +155,13 @@ theorem m2m_same_pairs_transposed (cmds : List (M2MCmd α)) (regs : List (M2M α
   have w := m2m_invariant cmds regs h s hs
   rw [mem_iteritems w.gd, mem_iteritems w.gi]
   exact w.transpose k v
+
+/-- … `iteritems()` yields no pair twice … -/
+theorem m2m_pairs_nodup (cmds : List (M2MCmd α)) (regs : List (M2M α))
+    (h : m2mRun [] cmds = some regs) (s : M2M α) (hs : s ∈ regs) :
+    (iteritems s.data).Nodup ∧ (iteritems s.inv).Nodup := by
+  have w := m2m_invariant cmds regs h s hs
+  exact ⟨nodup_iteritems w.gd, nodup_iteritems w.gi⟩
 
 /-- … with no empty entry and no key listed twice, on either side -/
 theorem m2m_no_empty_entries (cmds : List (M2MCmd α)) (regs : List (M2M α))
@@ -179,6 +231,11 @@ example : m2mRun ([] : List (M2M Nat))
      .updateFrom 1 false 1 true, .op 0 true (.delitem 5)]
     = some [⟨[(2, [6])], [(6, [2])]⟩,
             ⟨[(5, [2]), (6, [2]), (2, [5, 6])], [(2, [5, 6]), (5, [2]), (6, [2])]⟩] := by decide
+/-- a state satisfying the `WF` hypotheses of the specification theorems -/
+example : (M2M.empty.updatePairs [(1, 5), (2, 5), (2, 6)] : M2M Nat).WF := M2M.WF.empty.updatePairs _
+example : ((M2M.empty.updatePairs [(1, 5), (2, 5), (2, 6)] : M2M Nat).replace 1 2) = ⟨[(2, [5, 6])], [(5, [2]), (6, [2])]⟩ := by
+  decide
+example : hasKey 2 (M2M.empty.updatePairs [(1, 5), (2, 5), (2, 6)] : M2M Nat).data = true := by decide
 
 /-! ## FrozenDict
 
